@@ -22,8 +22,9 @@ Nesting == {<<"sessions", "w", "session", "w">>, <<"sessions", "r", "session", "
 Classes == {"sessions", "session", "cache"}
 Before(a, b) == \E n \in Nesting : n[1] = a /\ n[3] = b
 \* no class is (transitively) before itself: three classes, so paths of length up to three
-Acyclic == \A a \in Classes : ~Before(a, a) /\ \A b \in Classes : ~(Before(a, b) /\ Before(b, a))
-                              /\ \A b, c \in Classes : ~(Before(a, b) /\ Before(b, c) /\ Before(c, a))
+Acyclic == /\ \A a \in Classes : ~Before(a, a)
+           /\ \A a, b \in Classes : ~(Before(a, b) /\ Before(b, a))
+           /\ \A a, b, c \in Classes : ~(Before(a, b) /\ Before(b, c) /\ Before(c, a))
 ASSUME Acyclic
 \* an observed nesting x = [outer, omode, inner, imode, sameObj, ...]
 NestingAllowed(x) == <<x.outer, x.omode, x.inner, x.imode>> \in Nesting /\ ~x.sameObj
